@@ -173,6 +173,9 @@ func c01Run(r *vt.Run, c c01Case) (points []sim.Point, devDesc string, found []c
 		// revoked since - whichever phase it happened in (the freeze goes node by node, each with its
 		// own offline_mode on/off, so "before the first OFFLINE_OFF" would miss all but the first)
 		roByProcedure := map[string]bool{}
+		// ioByProcedure: the procedure stopped the node's IO thread and saw that succeed (a node on which
+		// a freeze step failed from the procedure's point of view is dropped from it)
+		ioByProcedure := map[string]bool{}
 		w.OnApply = append(w.OnApply, func(ap *sim.Applied) {
 			if ap.Call.Kind != "sql" || !ap.Effect {
 				return
@@ -183,6 +186,8 @@ func c01Run(r *vt.Run, c c01Case) (points []sim.Point, devDesc string, found []c
 				roByProcedure[ap.Call.Target] = known
 			case "SET_WRITABLE":
 				roByProcedure[ap.Call.Target] = false
+			case "STOP_REPLICA_IO_THREAD":
+				ioByProcedure[ap.Call.Target] = known
 			}
 			switch ap.Call.Op {
 			case "CHANGE_SOURCE", "RESET_REPLICA_ALL", "OFFLINE_OFF":
@@ -248,7 +253,9 @@ func c01Run(r *vt.Run, c c01Case) (points []sim.Point, devDesc string, found []c
 					// lag, a node that lacks what a frozen member holds (executed or merely received)
 					for _, x := range A {
 						s := w.Servers[x]
-						if x != p && s != nil && s.Up && s.ReadOnly && !s.Positions().SubsetOf(ps.Executed) {
+						// (members this procedure froze: one it could not reach is outside the procedure's knowledge,
+						// exactly as for the quorum of clause 1)
+						if x != p && s != nil && s.Up && s.ReadOnly && (roByProcedure[x] && ioByProcedure[x] || x == "h1" && frozenRO[x]) && !s.Positions().SubsetOf(ps.Executed) {
 							violate("C01/4-async-lag-exception-only-for-automatic-failover", fmt.Sprintf("%s made writable (executed %s) although frozen member %s holds %s and this is not an automatic failover within the allowed lag",
 								p, strings.ReplaceAll(ps.Executed.String(), "\n", ""), x, strings.ReplaceAll(s.Positions().Minus(ps.Executed).String(), "\n", "")))
 						}
@@ -276,6 +283,9 @@ func c01Run(r *vt.Run, c c01Case) (points []sim.Point, devDesc string, found []c
 			}
 			for k := range roByProcedure {
 				delete(roByProcedure, k)
+			}
+			for k := range ioByProcedure {
+				delete(ioByProcedure, k)
 			}
 			for k := range frozenIO {
 				delete(frozenIO, k)
